@@ -20,6 +20,9 @@ CLAIMED = {
  "C17": ("kind-domain abstract interpretation of the adapter-argument chain, fresh/alias + in-place-effect analysis, ordering and sibling-agreement rules over the AST",
          "Decides the no-side-effect and composition clauses for every chain and request: adapter arguments of every kind end as a flat list (finite abstract domain, exhaustive), the only in-place mutations during request processing hit the header copy, adapter lists are fresh per connection, clones and per-prefix caches are per object, request adapters run forward and response processors reversed with own-before-parent order, auth adapters follow the absent-then-set discipline with b64(id:secret), and the urllib Request is wired from its namesakes.",
          "URL and body encoding values (urlencode, json.dumps, utf-8) are not decided; urllib/json/base64 are trusted not to mutate their arguments.", "3/C17"),
+ "C19": ("effect / must-fact / loop-structure analysis of the eager transitive registration, must-pass-through on the CFG of add_argument, sibling agreement of parser-creation sites",
+         "Decides, for every acyclic parent declaration, the mechanism the property rests on: the transitive closure is wired (new parser registered in each parent and in every earlier parser that has the parent as dependent, then entered into the registry), every insert that can repeat a (receiver, key) pair is guarded or the primitive is idempotent (diamonds / ancestor-and-descendant parents), options always reach argparse and are forwarded once to each dependent, both creation sites inherit the common options, parents are asserted before lookup, and the default-command / colour normalisation conditions are as stated.",
+         "argparse's own behaviour (parents=, conflict handling, SystemExit) is trusted; that the wiring implies the set-level invariant is the induction argument written in DESIGN.md 3/C19, not machine-checked.", "3/C19"),
 }
 
 NOT_APPLICABLE = {
